@@ -4,7 +4,7 @@ from __future__ import annotations
 
 import ast
 
-from ..core import expand_locals, single_defs, AnalysisError, Check, Scope, norm, strip_docstring, walk_no_nested
+from ..core import expand_locals, nary_index_problems, single_defs, AnalysisError, Check, Scope, norm, strip_docstring, walk_no_nested
 from ..dispatch import operator_table, classify_body, match_dispatch
 from ..interp import Sym, SymInterp
 from ..variants import Variant
@@ -152,6 +152,17 @@ class C08(Check):
             self.holds("E1", MOD, "_convert_*call", "call-keywords", callfns[0], "calls with keyword arguments are refused")
         else:
             self.violated("E1", MOD, "_convert_*call", "call-keywords", callfns[0], "Call.keywords is ignored")
+        # generic: no list-valued node field is read through a constant index without a length test (covers converters added later)
+        for fname, f in mod.functions.items():
+            if "." in fname:
+                continue
+            bad, good = nary_index_problems(f, mod)
+            for n, fld in {f_: (n_, f_) for n_, f_ in reversed(bad)}.values():
+                self.violated("E1", MOD, fname, f"indexed-field {fld}", n, f"`{norm(n)}` reads `{fld}` through a constant index and nothing in {fname} tests its length: "
+                              "further elements are dropped from the exported formula", witness="`k*x if a and b and c else 0` is exported with the condition `a and b`")
+            for fld in sorted({fld for _, fld in good}):
+                n0 = [n for n, f_ in good if f_ == fld][0]
+                self.holds("E1", MOD, fname, f"indexed-field {fld}", n0, "constant-index reads are preceded by a length test that refuses other lengths")
         body = mod.func("_handle_body")
         # only the last statement's conversion survives: earlier assignments must be refused by the node dispatcher
         nd = mod.func("_convert_node")
@@ -519,6 +530,33 @@ class C08(Check):
                     if not any(o.rule == "E7" and o.function == fname and o.verdict == "VIOLATED" for o in self.obs):
                         if isinstance(src, ast.Call):
                             self.holds("E7", MOD, fname, f"tree-source {norm(src)[:40]}", c, f"tree produced per call by {' -> '.join(chain) or norm(src)} (not memoised)")
+                        elif isinstance(src, ast.Name):
+                            # staged through a local: every definition must be a fresh parse, and none may be shared through a module-level table
+                            from ..core import module_tables
+
+                            tables = module_tables(mod)
+                            vals = []
+                            stored = []
+                            for x in walk_no_nested(fn):
+                                if isinstance(x, ast.Assign) and any(isinstance(t, ast.Name) and t.id == src.id for t in x.targets):
+                                    vals.append(x.value)
+                                    stored += [t for t in x.targets if isinstance(t, ast.Subscript) and isinstance(t.value, ast.Name) and t.value.id in tables]
+                                elif isinstance(x, ast.NamedExpr) and x.target.id == src.id:
+                                    vals.append(x.value)
+                                elif isinstance(x, ast.Assign) and norm(x.value) == src.id:
+                                    stored += [t for t in x.targets if isinstance(t, ast.Subscript) and isinstance(t.value, ast.Name) and t.value.id in tables]
+                            from_table = [v for v in vals if any(isinstance(y, ast.Name) and y.id in tables for y in ast.walk(v))
+                                          and not (isinstance(v, ast.Call) and norm(v.func) in ("copy.deepcopy", "deepcopy"))]
+                            if from_table or stored:
+                                w = from_table[0] if from_table else stored[0]
+                                self.violated("E7", MOD, fname, f"tree-source {norm(src)[:40]}", c,
+                                              f"the tree handed to {conv.name} is kept in the module-level table `{norm(w)[:50]}` and handed out again for the next component using the "
+                                              "same function: the in-place argument renaming of one component leaks into the next",
+                                              witness="two reactions using fns.mass_action_1s with args ['x','k1'] and ['y','k2']: the second kinetic law is exported with x and k1")
+                            elif vals and all(isinstance(v, ast.Call) for v in vals):
+                                self.holds("E7", MOD, fname, f"tree-source {norm(src)[:40]}", c, f"tree produced per call by {', '.join(sorted({norm(v.func) for v in vals}))} (not shared)")
+                            else:
+                                self.undecided_ob("E7", MOD, fname, f"tree-source {norm(src)[:40]}", c, "origin of the tree not recognised")
                         else:
                             self.undecided_ob("E7", MOD, fname, f"tree-source {norm(src)[:40]}", c, "origin of the tree not a direct call")
 
